@@ -67,7 +67,7 @@ def tauEnabled (s : Svc) : Bool :=
 
 /-- first listener that can take its next callback now. -/
 def nextDeliver (m : Sim) : Option Nat :=
-  (m.s.lsns.find? fun l => !l.removed && !l.queue.isEmpty && !(m.busy.contains l.id)).map (·.id)
+  (m.s.lsns.find? fun l => !l.removed && !l.queue.isEmpty && !l.busy).map (·.id)
 
 def settleFuel : Nat → Sim → Sim
   | 0, m => m
@@ -80,8 +80,9 @@ def settleFuel : Nat → Sim → Sim
       else settleFuel fuel { m with iterBlocked := true, nIter := m.nIter + 1 }
     else match nextDeliver m with
       | some id =>
-        settleFuel fuel { m with s := step m.s (.deliver id),
-                                 busy := if m.gated.contains id then id :: m.busy else m.busy }
+        -- an ordinary listener's callback returns at once; a gated one stays inside until `D<id>`
+        let s1 := step m.s (.deliver id)
+        settleFuel fuel { m with s := if m.gated.contains id then s1 else step s1 (.deliverEnd id) }
       | none => m
 
 /-- value a waiter on the running latch obtains when it wakes during this action; `ok?` = either
@@ -140,7 +141,7 @@ def applyAction (m : Sim) (a : String) : Sim :=
     | 'L' => { m with s := step m.s .addListener }
     | 'G' => { m with gated := m.s.nextL :: m.gated, s := step m.s .addListener }
     | 'R' => { m with s := step m.s (.removeListener k), removedIds := k :: m.removedIds }
-    | 'D' => { m with busy := m.busy.filter (· != k) }
+    | 'D' => { m with s := step m.s (.deliverEnd k) }
     | _ => m
 
 def callStr (kind : Char) : Call → List String
@@ -285,8 +286,15 @@ def judgeSvc (cfg : String) (acts : List String) (snaps : List Snap) : List Stri
     let l0 := (sn.lsns.headD ("", [])).2
     -- scheduler bookkeeping derived from the action (inputs only)
     if a == "W" then wCancelled := true
-    if a == "s0" then startRetNil := true
-    if a.length == 2 && "srpi".toList.contains (headC a) && dropS a 1 != "0" then
+    -- a release action counts only if that function was parked in the previous snapshot (the generator
+    -- only emits enabled releases; a hand-written or replayed line must not change the verdict)
+    let parked := match prev with
+      | some p =>
+        let st := match headC a with | 's' => "S" | 'r' => "R" | 'i' => "R" | 'p' => "P" | _ => "?"
+        a.length == 2 && p.st == st && (p.calls.map fnName).contains (takeS a 1)
+      | none => false
+    if a == "s0" && parked then startRetNil := true
+    if parked && "srpi".toList.contains (headC a) && dropS a 1 != "0" then
       errsReleased := errsReleased ++ [dropS a 1]
     if a == "L" || a == "G" then
       regAt := regAt ++ [(nextId, match prev with | some p => (p.lsns.headD ("", [])).2.length | none => 0)]
@@ -696,7 +704,8 @@ def handleFW (f : List String) : String × String × String :=
             | none => (w, sims)
         -- a service that has just failed runs the watcher's Failed callback (if still registered)
         let w := (List.zip (List.range n) (List.zip was sims)).foldl (fun w (j, (st0, s)) =>
-          if st0 != .failed && s.s.st == .failed then w.step (.failure j (s.s.failure.getD 0)) else w) w
+          -- the harness' reader receives at once
+          if st0 != .failed && s.s.st == .failed then (w.step (.failure j (s.s.failure.getD 0))).step .recv else w) w
         go w sims rest (render w sims :: acc)
     let model := go {} sims0 acts [render {} sims0]
     let implNoTo := raws.map fun r => ";".intercalate ((r.splitOn ";").take 4)
@@ -733,11 +742,56 @@ def handleFW (f : List String) : String × String × String :=
     (diff, judge, s!"k=fw mode={takeS cfg 1} n={n} forwarded={nf} closes={min (countOf acts "C") 2}")
   | _ => ("bad-fields", "-", "-")
 
+/-- `C17.fwblock`: a failure watcher WITHOUT a permanent reader. Actions: S<i> / s<i>:<k> (service i is started /
+its start function returns error k), C (Close in a goroutine), WS (WatchService in a goroutine), RD (one receive).
+Snapshot: received failures ; calls (Close + WatchService) that have returned ; WatchService calls that panicked. -/
+def handleFWBlock (f : List String) : String × String × String :=
+  match f with
+  | [ns, actsS, obs] =>
+    let n := natOf ns
+    let acts := if actsS == "-" then [] else actsS.splitOn " "
+    let raws := obs.splitOn " | "
+    let sims0 := (List.range n).map fun _ => updateWaiters (settleFuel 64 (initSim "b111")) {}
+    let render := fun (w : FW) (calls queuedWS panics : Nat) =>
+      (if w.forwarded.isEmpty then "-" else ",".intercalate (w.forwarded.map fun p => toString p.2)) ++ ";" ++
+        toString (calls - (w.waitingCalls + (if w.closing then 1 else 0))) ++ ";" ++
+        toString (panics + (if w.closed then queuedWS else 0))
+    let rec go (w : FW) (sims : List Sim) (calls queuedWS panics : Nat) (acts : List String) (acc : List String) : List String :=
+      match acts with
+      | [] => acc.reverse
+      | a :: rest =>
+        let (kind, i, k) := parseMAct a
+        let was := sims.map (·.s.st)
+        let (w, sims, calls, queuedWS, panics) :=
+          if a == "C" then (w.step .close, sims, calls + 1, queuedWS, panics)
+          else if a == "WS" then
+            (w.step .watch, sims, calls + 1, if w.closing then queuedWS + 1 else queuedWS, if w.closed then panics + 1 else panics)
+          else if a == "RD" then (w.step .recv, sims, calls, queuedWS, panics)
+          else
+            let ev : Option Ev := match kind with
+              | "S" => some .startAsync
+              | "s" => some (.startRet (optErr k))
+              | _ => none
+            match ev with
+            | some ev => (w, modifyAt sims i fun s => updateWaiters (settleFuel 64 { s with s := step s.s ev }) {}, calls, queuedWS, panics)
+            | none => (w, sims, calls, queuedWS, panics)
+        let w := (List.zip (List.range n) (List.zip was sims)).foldl (fun w (j, (st0, s)) =>
+          if st0 != .failed && s.s.st == .failed then w.step (.failure j (s.s.failure.getD 0)) else w) w
+        go w sims calls queuedWS panics rest (render w calls queuedWS panics :: acc)
+    let model := go {} sims0 0 0 0 acts [render {} 0 0 0]
+    let diff := if model == raws then "-" else
+      let idx := (List.zip model raws).findIdx (fun p => p.1 != p.2)
+      s!"step={idx} model={model.getD idx "?"}"
+    -- no clause of the property speaks about Close blocking: observation only
+    (diff, "-", s!"k=fwblock n={n} closes={min (countOf acts "C") 2} reads={min (countOf acts "RD") 3}")
+  | _ => ("bad-fields", "-", "-")
+
 def handle (cmd : String) (f : List String) : String × String × String :=
   if cmd == "C17.svc" then handleSvc f
   else if cmd == "C17.mgr" then handleMgr f
   else if cmd == "C17.mgrnew" then handleMgrNew f
   else if cmd == "C17.fw" then handleFW f
+  else if cmd == "C17.fwblock" then handleFWBlock f
   else ("unknown-cmd", "-", "-")
 
 end OracleC17
